@@ -332,6 +332,25 @@ def run(ck, ix, tier):
                  f"`{norm(test.test) if test is not None else norm(rm)}`: a rule whose source *or* target is a derived dimension must be re-keyed to base dimensions (otherwise the path search never finds it)")
         ck.check(ok2, "G-PROV", "enable_contexts|rule-rekeyed-to-base-dimensions", fi.loc(rm), "old key removed, same function added under the base-dimension key",
                  "the rule is not moved from (src, dst) to (base src, base dst) with the same function")
+    # ordering: the per-activation copies are taken from contexts whose rules have ALREADY been re-keyed to base
+    # dimensions (a copy shares the rule functions but keeps its own key -> context map, which would stay un-normalised)
+    cfg_e = cfg_of(fi)
+    copies = nodes_calling(cfg_e, "from_context")
+    rekeys = nodes_calling(cfg_e, "add_transformation", "remove_transformation")
+    if copies and rekeys:
+        # a loop that holds both the copy and the re-keying handles one context per iteration: the next iteration's
+        # re-keying is of another context, so paths through that loop's header do not count
+        both = [l_ for l_ in walk_local(fi.node) if isinstance(l_, ast.For)
+                and any(isinstance(c_, ast.Call) and call_name(c_) == "from_context" for c_ in ast.walk(l_))
+                and any(isinstance(c_, ast.Call) and call_name(c_) in ("add_transformation", "remove_transformation") for c_ in ast.walk(l_))]
+        headers = [i_ for l_ in both for i_ in cfg_e.nodes_for_ast(l_)]
+        after = cfg_e.reach([v for c_ in copies for (v, lab) in cfg_e.succ[c_]], avoid=headers)
+        late = [r_ for r_ in rekeys if r_ in after]
+        ck.check(not late, "G-PAIR", "enable_contexts|rules-rekeyed-before-contexts-are-copied", fi.loc(cfg_e.nodes[late[0]].ast) if late else fi.loc(),
+                 "rules are normalised to base dimensions before the parameterised copies are made",
+                 "a rule can be re-keyed to base dimensions after Context.from_context has copied the context: the copy's rule index keeps the un-normalised endpoints and its first activation cannot find the rule")
+    from .C12 import with_context_rule
+    with_context_rule(ck, ix)      # parameters of the decorator form reach the context (not the call's own kwargs)
     fc = [c for c in walk_local(fi.node) if isinstance(c, ast.Call) and call_name(c) == "from_context"]
     ck.floor("G-PROV", len(fc), 1, "from_context call")
     for c in fc:
